@@ -4912,8 +4912,8 @@ func (t *Terminal) Loop() error {
 			}
 			numLines := len(t.previewer.lines)
 			headerLines := t.activePreviewOpts.headerLines
-			if t.activePreviewOpts.cycle {
-				offsetRange := numLines - headerLines
+			// offsetRange is zero when the preview has header lines only
+			if offsetRange := numLines - headerLines; t.activePreviewOpts.cycle && offsetRange > 0 {
 				newOffset = ((newOffset-headerLines)+offsetRange)%offsetRange + headerLines
 			}
 			newOffset = util.Constrain(newOffset, headerLines, numLines-1)
